@@ -76,6 +76,11 @@ func main() {
 				continue
 			}
 			findings, _ := core.LoadFindings("/verif/known_findings.json")
+			if os.Getenv("SA_XP_VERBOSE") != "" {
+				for _, n := range prog.Notes {
+					fmt.Fprintln(os.Stderr, "   note:", n)
+				}
+			}
 			ids := make([]string, 0)
 			for id := range rules.Registry {
 				ids = append(ids, id)
